@@ -519,11 +519,37 @@ func c08GenChain(r *rand.Rand) *c08Case {
 
 var c08Sources = []string{"query", "bind-get", "form", "multipart", "header", "param"}
 
+// sources that carry the texts in a request body
+var c08BodySources = []string{"form", "multipart", "json", "xml"}
+
+// one in c08ServerShare body cases goes through the real server (set by c08Gen from the tier)
+var c08ServerShare = 60
+
+// how the length of a body is (not) declared
+func c08RandLenMode(r *rand.Rand) string {
+	switch k := r.Intn(100); {
+	case k < 25:
+		return "unknown"
+	case k < 40:
+		return "chunked"
+	case k < 40+100/c08ServerShare:
+		return "server"
+	}
+	return ""
+}
+
 func c08GenStruct(r *rand.Rand) *c08Case {
 	_, infos := c08Catalogue()
 	c := &c08Case{Kind: "struct", Source: c08Sources[r.Intn(len(c08Sources))], Prepop: r.Intn(2) == 0}
 	if r.Intn(5) == 0 {
 		c.Source = "param+query"
+	}
+	if r.Intn(8) == 0 { // decoded bodies: judged against encoding/json | encoding/xml on the same bytes
+		c.Source = []string{"json", "xml"}[r.Intn(2)]
+	}
+	switch c.Source {
+	case "form", "multipart", "json", "xml":
+		c.LenMode = c08RandLenMode(r)
 	}
 	n := 1 + r.Intn(6)
 	pBad := []int{3, 15, 40}[r.Intn(3)]
@@ -685,6 +711,38 @@ func c08Probe(r *rand.Rand) []any {
 			out = append(out, &c08Case{Kind: "struct", Source: src, Fields: []c08Field{f}, Prepop: r.Intn(2) == 0})
 		}
 	}
+	// bodies of unknown length: every catalogue field x {valid, one past its range, empty, junk} x
+	// every body source x {ContentLength -1, -1 + chunked}; a sample of them over a real connection
+	for _, info := range infos {
+		texts := []string{c08ValidFor(r, info.Fam, info.E), c08Adversarial(r, info.Fam, info.E), "", "abc"}
+		if info.Fam == famInt || info.Fam == famUint {
+			bits := uint(info.E.Bits())
+			if info.Fam == famInt {
+				bits--
+			}
+			texts[1] = new(big.Int).Lsh(big.NewInt(1), bits).String() // 2^bits: one past the range
+		}
+		switch info.Fam { // a body longer than one read buffer: the numeral only ends after 600 bytes
+		case famInt, famUint, famFloat:
+			texts = append(texts, strings.Repeat("0", 600)+"5", strings.Repeat("0", 600)+texts[1])
+		case famStr, famUnm:
+			texts = append(texts, strings.Repeat("ab", 400))
+		}
+		for _, txt := range texts {
+			for _, src := range c08BodySources {
+				for _, mode := range []string{"unknown", "chunked"} {
+					if r.Intn(c08ServerShare) == 0 {
+						mode = "server"
+					}
+					f := c08Field{Name: info.Name, Values: []string{txt}}
+					if info.Wrap >= 2 && r.Intn(2) == 0 {
+						f.Values = []string{c08ValidFor(r, info.Fam, info.E), txt}
+					}
+					out = append(out, &c08Case{Kind: "struct", Source: src, LenMode: mode, Prepop: r.Intn(2) == 0, Fields: []c08Field{f}})
+				}
+			}
+		}
+	}
 	// pre-populated destinations: every field x {empty, valid text} x every source, and path
 	// value followed by an empty / valid query value for the same field
 	for _, info := range infos {
@@ -709,11 +767,13 @@ func c08Probe(r *rand.Rand) []any {
 
 func c08Gen(r *rand.Rand, tier string) []any {
 	c08Methods()
-	out := c08Probe(r)
 	nChains, nStructs, nDec := 4000, 3000, 0
+	c08ServerShare = 60
 	if tier == "thorough" {
 		nChains, nStructs, nDec = 120000, 80000, 2500
+		c08ServerShare = 8
 	}
+	out := c08Probe(r)
 	for i := 0; i < nChains; i++ {
 		out = append(out, c08GenChain(r))
 	}
@@ -818,9 +878,19 @@ func c08Shrink(ci any) []any {
 			d.Fields2 = append(append([]c08Field(nil), c.Fields2[:i]...), c.Fields2[i+1:]...)
 			out = append(out, &d)
 		}
-		if c.Source != "query" && c.Source != "param+query" {
+		if c.LenMode != "" {
 			d := *c
-			d.Source = "query"
+			d.LenMode = ""
+			out = append(out, &d)
+			if c.LenMode == "server" || c.LenMode == "chunked" {
+				d2 := *c
+				d2.LenMode = "unknown"
+				out = append(out, &d2)
+			}
+		}
+		if c.Source != "query" && c.Source != "param+query" && c.Source != "json" && c.Source != "xml" {
+			d := *c
+			d.Source, d.LenMode = "query", ""
 			out = append(out, &d)
 		}
 		if c.Source == "param+query" && len(c.Fields2) == 0 {
